@@ -151,6 +151,10 @@ def run(res, tier):
         res.floor("WR-2", "C02 shape functions with column accessors", n2, 20)
         ns = sib1(p, res)
         res.floor("SIB-1", "assign/out-of-place pairs", ns, 5)
+        from . import rad
+        res.rule("ROW-1", "row accessors of GGSW operations in a row loop: the loop bound stays within the object's dnum() under the comparisons that dominate the access")
+        nrow = rad.row1(p, res, ("poulpy_core::operations", "poulpy_core::api::operations"))
+        res.floor("ROW-1", "row accessors in row loops", nrow, 6)
         res.rule("COL-3", "limb-wise two-operand GLWE operations (non-normalising vec_znx kernels) compare the radices of the objects they move limbs between")
         n3 = col3(p, res)
         res.floor("COL-3", "limb-wise two-operand operations", n3, 14)
